@@ -371,6 +371,34 @@ def r14_6(ctx):
                           and bytes(val) == counter.to_bytes(4, "little") and p.terminal == "return")
                     ctx.require(ok, f"{meth}:v{v}:{'zero' if counter == 0 else 'value'}", f"v{v} {meth}({counter:#x}): setValue({vid!r}, {val!r}); must set *{want} to the 32-bit "
                                 "little-endian counter, whatever its value", func=m)
+        # a rejected counter write must not pass silently: the writer raises, or it reports the status and every caller looks at it
+        if v != 4:
+            for meth in ("write_nwk_frame_counter", "write_aps_frame_counter"):
+                m = c.method(meth)
+                for fam, rej in (("EmberStatus", "ERR_FATAL"), ("EzspStatus", "ERROR_INVALID_VALUE")):
+                    fam_m = repo.cls(NAMED, fam).members()
+                    if rej not in fam_m:
+                        continue
+                    pxr = PX(repo, models=[("self.networkState", Outcomes(OK((repo.cls(NAMED, "EmberNetworkStatus").members()["NO_NETWORK"],)))),
+                                           ("self.setValue", Outcomes(OK((fam_m[rej],))))], inline=same_class())
+                    for p in pxr.explore(m, lambda: (self_obj(c, {}), {"frame_counter": 0x01020304})):
+                        if p.terminal == "raise":
+                            ctx.ok(1, (meth, v, "rejected-raises"))
+                            continue
+                        discarded = []
+                        for g in repo.all_functions():
+                            if g.mod.startswith("bellows.cli"):
+                                continue
+                            import ast as _ast
+
+                            for st in _ast.walk(g.node):
+                                if isinstance(st, _ast.Expr) and isinstance(st.value, _ast.Await) and isinstance(st.value.value, _ast.Call) \
+                                        and isinstance(st.value.value.func, _ast.Attribute) and st.value.value.func.attr == meth:
+                                    discarded.append(g.short)
+                        reported = isinstance(p.value, Member) and p.value.value != 0
+                        ctx.require(reported and not discarded, f"{meth}:v{v}:rejected", f"v{v} {meth}: the NCP rejects the write ({fam}.{rej}) and the writer returns "
+                                    f"{p.value!r}{' which ' + ', '.join(sorted(set(discarded))) + ' discards' if discarded else ''}: the restore goes on as if the counter had been "
+                                    "stored (the network then starts with frame counter 0)", func=m, trace=p.trace(10))
         if v >= 13:
             m = c.method("get_network_key")
             sl = repo.cls(NAMED, "sl_Status").members()["OK"]
